@@ -104,10 +104,22 @@ async fn run(script: Value, out_path: String) -> i32 {
                 loop {
                     let mut pending = false;
                     for s in 0..nshards {
-                        let rc = eng.data_dir.join(format!("shard-{s}")).join(".reclaim");
+                        let sd = eng.data_dir.join(format!("shard-{s}"));
+                        let rc = sd.join(".reclaim");
                         if let Ok(rd) = std::fs::read_dir(&rc) {
                             if rd.flatten().next().is_some() {
                                 pending = true;
+                            }
+                        }
+                        // a numeric directory that is not in the live list is a drained input
+                        // whose reclaim task has not run yet
+                        let live = eng.live(s);
+                        if let Ok(rd) = std::fs::read_dir(&sd) {
+                            for e in rd.flatten() {
+                                let n = e.file_name().to_string_lossy().to_string();
+                                if n.chars().all(|c| c.is_ascii_digit()) && !live.contains(&n) {
+                                    pending = true;
+                                }
                             }
                         }
                     }
